@@ -61,6 +61,9 @@ pub fn vcf_text(cs: &CallSet) -> Vec<u8> {
         let ma = max_allele(&r.gts);
         let alts = ["C", "G", "T", "CA", "CAA", "CAAA", "CT", "CTT", "CTTT", "CG", "CGG", "CGGG"];
         let alt = if ma == 0 && i % 3 == 0 { ".".to_string() } else { alts[..ma.max(1).min(alts.len())].join(",") };
+        // records at positions 5 mod 11 spell their first ALT allele `*` (the overlapping-deletion allele of joint callers): an allele like
+        // any other as far as counting goes
+        let alt = if r.pos % 11 == 5 && alt != "." { let mut parts: Vec<&str> = alt.split(',').collect(); parts[0] = "*"; parts.join(",") } else { alt };
         // INFO carries summary fields as real call sets do; AC / AN are present on single-ALT records and are NOT kept in step with
         // the genotypes (stale after filtering / masking): nothing but the GT columns may decide a site
         let info = if cs.extras {
